@@ -23,7 +23,8 @@ for mp in sorted(glob.glob("/verif/seeded/*/meta.json")):
     for c in checks:
         def run(tier):
             p = subprocess.run(["/verif/lib/seedtest.sh", os.path.join(d, "patch.diff"), c, tier], stdout=subprocess.PIPE, text=True)
-            return (p.stdout.strip().splitlines() or ["?"])[-1][:500]
+            lines = [l for l in p.stdout.splitlines() if re.match(r"(DETECTED|MISSED|INCONCLUSIVE|PATCH-DOES-NOT-APPLY)\b", l)]
+            return (lines or p.stdout.strip().splitlines() or ["?"])[-1][:500]
         line = run("quick")
         res["%s/quick" % c] = line
         if line.startswith("MISSED") and c == own and not any(v.startswith("DETECTED") for v in res.values()):
